@@ -610,8 +610,9 @@ Definition evaluate (vars : env) (c : ctx) (e : expr) : res value := wrap (eval 
 (* ---- section_engine ------------------------------------------------------------------------- *)
 Definition defs := list (string * expr).
 
-(* parse_sections stores variables in a dict: a re-definition replaces the expression in place *)
-Definition norm_defs (raw : defs) : defs := fold_left (fun d ne => dset d (fst ne) (snd ne)) raw [].
+(* parse_sections stores variables in a dict keyed by the LOWER-CASED name (names are case-insensitive at
+   use): a re-definition, in any letter case, replaces the expression in place *)
+Definition norm_defs (raw : defs) : defs := fold_left (fun d ne => dset d (lower (fst ne)) (snd ne)) raw [].
 
 (* evaluate_variables: an ExpressionError makes the variable None; anything else escapes *)
 Definition eval_vars (ds : defs) (c : ctx) (start : env) : res env :=
@@ -636,9 +637,10 @@ Definition eval_filter (v : view) (c : ctx) (globals : env) : res bool :=
   end.
 
 (* ---- analyzer.classify_by_sections: the per-merchant context -------------------------------- *)
-(* txn_date = strptime(txn['month'] + '-15'): only year and month of a payment survive *)
-Definition rebuild (p : payment) : payment :=
-  {| p_year := p_year p; p_month := p_month p; p_day := 15; p_amount := p_amount p |}.
+(* txn_date = strptime(txn['month'] + '-' + txn['date'][-2:]): year-month from 'month', day from 'date'
+   ('MM/DD', as analyze_transactions stores it) — the payment's own date.  (Before the fix the day was
+   always 15, which made by("day") / by("week") group by month.) *)
+Definition rebuild (p : payment) : payment := p.
 
 Fixpoint zdistinct (l : list Z) : list Z :=
   match l with [] => [] | x :: r => let d := zdistinct r in if existsb (Z.eqb x) d then d else x :: d end.
@@ -657,6 +659,11 @@ Definition ctx_own (period_month period_year : Z) (m : merchant) : ctx :=
      c_tags := m_tags m; c_period_month := period_month; c_period_year := period_year |}.
 
 Record config := { g_vars : defs; g_views : list view }.
+
+(* parse_sections: "Duplicate section name" -> SectionParseError (results are keyed by name) *)
+Fixpoint has_dup (l : list string) : bool :=
+  match l with [] => false | x :: r => (mem x r || has_dup r)%bool end.
+Definition parse_ok (cfg : config) : bool := negb (has_dup (map v_name (g_views cfg))).
 
 Section Pipeline.
   Variable cfg : config.
